@@ -791,6 +791,10 @@ class Interp(object):
             return g[name]
         if hasattr(builtins, name):
             return getattr(builtins, name)
+        if self.pure > 0 or self.frame.contract_mode:
+            # a contract clause names a local the code does not (or no longer) have: the proof artefact does not fit the
+            # code - this is not an exception of the program
+            raise OutOfReach('contract clause refers to %r, which is not a name in the code under contract' % name)
         self.raise_exc(NameError, name)
 
     def assign_name(self, name, v):
